@@ -53,6 +53,7 @@ theorem LinkADRReq_set_data_rate (c b0 b1 b2 b3 v : Nat) (hv : v < 256) :
     try simp only [s4]
     setter_eval
     try rw [hw]
+    try simp [Nat.and_comm]
 
 theorem LinkADRReq_set_tx_power (c b0 b1 b2 b3 v : Nat) (hv : v < 256) :
     (Gen.MacCmdCreatorFn.LinkADRReqCreator.set_tx_power ⟨ints [c, b0, b1, b2, b3]⟩ v).map (resF (·.data))
@@ -71,6 +72,7 @@ theorem LinkADRReq_set_tx_power (c b0 b1 b2 b3 v : Nat) (hv : v < 256) :
     try simp only [s4]
     setter_eval
     try rw [hw]
+    try simp [Nat.and_comm]
 
 theorem LinkADRAns_set_channel_mask_ack (c b0 : Nat) (ack : Bool) :
     (Gen.MacCmdCreatorFn.LinkADRAnsCreator.set_channel_mask_ack ⟨ints [c, b0]⟩ ack).map (resI (·.data))
@@ -137,6 +139,7 @@ theorem TXParamSetupReq_set_max_eirp (c b0 v : Nat) (hv : v < 256) :
     try simp only [s4]
     setter_eval
     try rw [hw]
+    try simp [Nat.and_comm]
 theorem leBytes_nat : ∀ (n v : Nat), Rt.leBytes n (v : Int) = ints (toLeBytes n v) := by
   intro n
   induction n with
